@@ -4,7 +4,10 @@
 (* documented pattern occurs.  A bounded language of instances: each is    *)
 (* one statement (rendered on one line) of a pattern family, with operands  *)
 (* drawn from small sets, placed in one of several contexts (top level,    *)
-(* inside a function, inside a nested block).  For every instance the      *)
+(* inside a function, inside a nested block) and, for expressions, table   *)
+(* constructors and parameter lists, at one of several places inside the   *)
+(* statement (call argument, condition, constructor field, return value,   *)
+(* index, anonymous function ...).  For every instance the                 *)
 (* documented rule gives                                                   *)
 (*   must    : the diagnostic types that must be reported on that line,    *)
 (*             each exactly once                                           *)
@@ -80,15 +83,30 @@ DupIf == {[fam |-> "dupif", a |-> c1, b |-> c2, op |-> c3,
            mustnot |-> IF Cardinality({c1, c2, c3}) = 3 THEN {19} ELSE {}] : c1 \in Conds, c2 \in Conds, c3 \in Conds}
 
 \* self assignment (20): x = x ; x, y = x, y ; not x, y = y, x ; not x = y
+V3 == {"x", "y", "z"}
 SelfAssign == {[fam |-> "selfassign", a |-> l, b |-> r, op |-> "",
                 must |-> IF l = r THEN {20} ELSE {},
-                mustnot |-> IF l # r THEN {20} ELSE {}] : l \in {"x", "x, y"}, r \in {"x", "y", "x, y", "y, x"}}
+                mustnot |-> IF l # r THEN {20} ELSE {}] :
+                   l \in {"x", "x, y"}, r \in {"x", "y", "x, y", "y, x"}}
+              \* every target must be assigned itself: one identical pair among differing ones is not the pattern
+              \cup {[fam |-> "selfassign", a |-> "x, y", b |-> p \o ", " \o q, op |-> "",
+                     must |-> IF <<p, q>> = <<"x", "y">> THEN {20} ELSE {},
+                     mustnot |-> IF <<p, q>> # <<"x", "y">> THEN {20} ELSE {}] : p \in V3, q \in V3}
+              \cup {[fam |-> "selfassign", a |-> "x, y, z", b |-> p \o ", " \o q \o ", " \o w, op |-> "",
+                     must |-> IF <<p, q, w>> = <<"x", "y", "z">> THEN {20} ELSE {},
+                     mustnot |-> IF <<p, q, w>> # <<"x", "y", "z">> THEN {20} ELSE {}] : p \in V3, q \in V3, w \in V3}
 
 Instances == DupKey \cup Arity \cup DupParam \cup BinExp \cup AndFalse \cup FloatEq \cup DupIf \cup SelfAssign
 
-VARIABLES inst, ctx
-vars == <<inst, ctx>>
-Init == inst \in Instances /\ ctx \in Contexts
+\* where the instance's expression / constructor / parameter list is planted inside its statement
+ECtx(f) == CASE f \in {"binexp", "andfalse", "floateq"} -> {"arg", "cond", "while", "tbl", "ret", "index"}
+             [] f = "dupkey" -> {"local", "arg", "ret"}
+             [] f = "params" -> {"lfunc", "anon", "arg", "gfunc"}
+             [] OTHER -> {"stmt"}
+
+VARIABLES inst, ctx, ectx
+vars == <<inst, ctx, ectx>>
+Init == inst \in Instances /\ ctx \in Contexts /\ ectx \in ECtx(inst.fam)
 Next == UNCHANGED vars
 
 \* model facts: the two obligations never contradict each other, and only pattern types are mentioned
@@ -96,6 +114,6 @@ Consistent == inst.must \cap inst.mustnot = {} /\ inst.must \cup inst.mustnot \s
 
 Times == IF "times" \in DOMAIN inst THEN inst.times ELSE 1
 
-Emit == PrintT("@@J " \o ToJson([fam |-> inst.fam, a |-> inst.a, b |-> inst.b, op |-> inst.op, ctx |-> ctx,
+Emit == PrintT("@@J " \o ToJson([fam |-> inst.fam, a |-> inst.a, b |-> inst.b, op |-> inst.op, ctx |-> ctx, ectx |-> ectx,
                                  must |-> inst.must, times |-> Times, mustnot |-> inst.mustnot]))
 =============================================================================
